@@ -18,12 +18,21 @@ pub struct Tally {
     pub mismatches: u64,
     pub nontrivial: u64,
     pub printed: u64,
+    pub dev: u64,
 }
 
 impl Tally {
+    /// mismatches explained by a named deviation of the model (known findings) are counted and
+    /// only the first few are printed, so that they can never crowd out an unexplained one
     pub fn mismatch(&mut self, v: Value) {
         self.mismatches += 1;
-        if self.printed < 200 {
+        let is_dev = v.get("dev").map(|d| !d.is_null()).unwrap_or(false);
+        if is_dev {
+            self.dev += 1;
+            if self.dev <= 40 {
+                println!("{}", json!({ "mismatch": v }));
+            }
+        } else if self.printed < 1000 {
             println!("{}", json!({ "mismatch": v }));
             self.printed += 1;
         }
@@ -190,7 +199,7 @@ fn replay_stab(doc: &Value, t: &mut Tally) {
 pub fn main(args: &[String]) {
     silence_panics();
     let input = arg_value(args, "--in").unwrap_or_else(|| "-".to_string());
-    let mut t = Tally { n: 0, executions: 0, mismatches: 0, nontrivial: 0, printed: 0 };
+    let mut t = Tally { n: 0, executions: 0, mismatches: 0, nontrivial: 0, printed: 0, dev: 0 };
     let ctx = crate::replay_str::Ctx::new(args);
     for line in lines_of(&input) {
         if line.is_empty() {
@@ -207,6 +216,6 @@ pub fn main(args: &[String]) {
     }
     println!(
         "{}",
-        json!({"summary": {"n": t.n, "executions": t.executions, "mismatches": t.mismatches, "nontrivial": t.nontrivial}})
+        json!({"summary": {"n": t.n, "executions": t.executions, "mismatches": t.mismatches, "nontrivial": t.nontrivial, "dev": t.dev, "other_printed": t.printed}})
     );
 }
